@@ -44,7 +44,7 @@ def raw_text(r):
         return "true"
     if r is False:
         return "false"
-    if isinstance(r, list):
+    if isinstance(r, (list, dict)):
         return json.dumps(r)
     return str(r)
 
@@ -57,7 +57,10 @@ def argv_of(case, idx):
     argv = []
     ncfg = 0
     for t in case["toks"]:
-        if t[0] == "opt":
+        if t[0] == "opt" and isinstance(t[2], dict) and case.get("data_nested"):
+            # a dataclass value field by field: --k.x=1 --k.y=2
+            argv += ["--%s.%s=%s" % (t[1], f, raw_text(t[2][f])) for f in ("x", "y")]
+        elif t[0] == "opt":
             if case.get("opt_two_tokens") and not raw_text(t[2]).startswith("-"):
                 argv += ["--" + t[1], raw_text(t[2])]
             else:
@@ -85,7 +88,7 @@ def run_case(case, idx):
     mod = importlib.import_module(name)
     argv = argv_of(case, idx)
     PHASE["parsing"] = False
-    classes = tuple(v for v in vars(mod).values() if isinstance(v, type))
+    classes = tuple(v for v in vars(mod).values() if isinstance(v, type) and v.__name__ != "Point")
     err = io.StringIO()
     try:
         with contextlib.redirect_stderr(err), contextlib.redirect_stdout(io.StringIO()):
